@@ -1,4 +1,3 @@
-import Ntrip.Guards.Apps
 import Ntrip.Properties.C09
 import Ntrip.Properties.C02
 import Ntrip.Properties.C07
@@ -97,42 +96,8 @@ theorem page_safe (parts : List (List Char)) (clientLeader serverLeader clientDu
     · exact (sanitise_no_lt _).2
     · exact (messageDisplay_no_markup texts).2
 
-/-- Tie T1: the five holes of `Status` in template order, how each is produced (the hex dumps
-    and every message text go through `Sanitise`), what `Sanitise` replaces, and the template's
-    own markup count. -/
-theorem tie_report :
-    Gen.rf_Status_holes = ["clientLeader", "clientHexDump", "serverLeader", "serverHexDump", "messageDisplay"] ∧
-    Gen.rf_Status_assigns = [("clientHexDump", [":= ", "= Sanitise()"]), ("clientLeader", [":= no input buffer", "= fmt.Sprintf()"]),
-      ("messageDisplay", [":= \nMessages\n\n", "+= Sanitise()+\n"]), ("reportBody", [":= fmt.Sprintf()"]),
-      ("serverHexDump", [":= ", "= Sanitise()"]), ("serverLeader", [":= no output buffer", "= fmt.Sprintf()"])] ∧
-    Gen.rf_Sanitise_replacements = ["<=>&lt; n=-1", ">=>&gt; n=-1"] ∧
-    Gen.rf_reportFormat_holes = 5 ∧ Gen.rf_reportFormat_lt = 24 ∧ Gen.rf_reportFormat_gt = 24 := by
-  repeat' constructor
-  all_goals decide
-
-/-- Tie T1: the goroutines and channels of the proxy's parser leg and relay loops. -/
-theorem tie_skeletons :
-    Gen.skeleton_proxy_start = some ["makechan cap=0", "defer close byteChan", "makechan cap=0", "defer close messageChan",
-      "go rtcmHandler.HandleMessages", "go keepCircularQueueUpdated"] ∧
-    Gen.skeleton_proxy_handleMessages = some ["go handleServerMessages"] ∧
-    Gen.skeleton_proxy_handleClientMessages = some ["for", "for", "send byteChan", "return"] ∧
-    Gen.skeleton_proxy_handleServerMessages = some ["for"] ∧
-    Gen.skeleton_proxy_keepCircularQueueUpdated = some ["for", "recv messageChan"] ∧
-    Gen.skeleton_rf_ReportFeed_Status = some ["sync rf.Lock", "defer sync rf.Unlock", "range rf.RecentMessages.GetMessages()", "return"] ∧
-    Gen.proxy_maxNumberOfMessagesStored = 20 := by
-  repeat' constructor
-  all_goals decide
-
 /-! Non-vacuity (tests). -/
 example : sanitise "<script>alert(1)</script>".toList = "&lt;script&gt;alert(1)&lt;/script&gt;".toList := by decide
 example : clientLoop [[1, 2], [3]] = ([1, 2, 3], [1, 2, 3]) := by decide
-
-/-- Tie T1: what the client loop hands over — each byte of the chunk, by value and from the loop
-    itself (no feeder goroutine), to the parser; the chunk itself upstream. -/
-theorem tie_handover :
-    Gen.sent_proxy_handleClientMessages = some ["byteChan <- data[i]", "server.Write(data[:n])"] := by decide
-
-/-- Tie T1 (guards): the relay loops, the queue updater and `Status`. -/
-theorem tie_guards_proxy : type_of% Ntrip.Guards.proxy := Ntrip.Guards.proxy
 
 end Ntrip.C19
